@@ -415,7 +415,111 @@ class C05:
                        "length 6/7 x ALL partitions into write calls")
 
 
-LEAF = {"C15": C15, "C16": C16, "C06": C06, "C05": C05}
+# ------------------------------------------------------------------------------------------- C19
+VERBS = "open mode active passive user logout close cd cdup ls put get rename pwd mkdir rmdir del stat syst type binary ascii size noop rhelp help exit".split()
+
+
+def quote_arg(a):
+    out = bytearray(b'"')
+    for ch in a:
+        if ch in (0x22, 0x5c):
+            out.append(0x5c)
+        out.append(ch)
+    out.append(0x22)
+    return bytes(out)
+
+
+class C19:
+    module = "Properties_C19"
+
+    @staticmethod
+    def corpus():
+        c = []
+        for t in ['"ls"', '"OPEN" host 21', '"c\\d" dir', '"get"a b', 'get "abc', 'get "a\\', 'get "a"b', 'get a"b"', "get 'a b'",
+                  "", " ", "\t\n", "ls", " ls ", "LS", "lS\t-l", "ls\x0b-l", "ls\x0c", "ls\x00", "ls\xa0x", "l\x00s", "lsx", "l",
+                  "open\rhost", "exit now", "get \"\" \"\"", "get \"a b\" c", "GET \"q\\\"x\\\\\"", "ſtat", "İ", "help\x85x", "cd ..", "put \"\\", "put \""]:
+            c.append("parse " + H(t.encode("utf-8") if any(ord(ch) > 255 for ch in t) else t.encode("latin-1")))
+        return c
+
+    @staticmethod
+    def generate(rng, tier, dist):
+        thorough = tier == "thorough"
+        cases = []
+        # all 2^n case variants of every verb (bare, and followed by an argument)
+        for v in VERBS:
+            for mask in range(2 ** len(v)):
+                sp = "".join(ch.upper() if (mask >> i) & 1 else ch for i, ch in enumerate(v))
+                cases.append("parse_rt %s %s" % (S(sp), v))
+                if thorough or mask % 5 == 0:
+                    cases.append("parse_rt %s %s %s" % (H(sp.encode() + b' "x y"'), v, S("x y")))
+            dist.add("all-case-variants", 2 ** len(v))
+        # near misses: prefixes, one byte inserted / replaced / wrapped around, for all 256 byte values
+        for v in VERBS:
+            vb = v.encode()
+            for k in range(len(vb)):
+                cases.append("parse " + H(vb[:k]))
+            for b in range(256):
+                bb = bytes([b])
+                near = [vb + bb, bb + vb, bb + vb + bb]
+                if thorough:
+                    near += [vb[:k] + bb + vb[k:] for k in range(1, len(vb))] + [vb[:k] + bb + vb[k + 1:] for k in range(len(vb))]
+                else:
+                    k = b % len(vb)
+                    near += [vb[:k] + bb + vb[k:], vb[:k] + bb + vb[k + 1:]]
+                for t in near:
+                    cases.append("parse " + H(t))
+            dist.add("near-miss-verbs")
+        # all lines up to length 2 over all bytes (thorough) / over a 40-byte alphabet (quick)
+        alpha = list(range(256)) if thorough else sorted(set(b' \t\n\r\x0b\x0c"\\lsLScdxX-\x00\xff\x80aAzZ09'))
+        for a in alpha:
+            cases.append("parse " + H(bytes([a])))
+            for b in alpha:
+                cases.append("parse " + H(bytes([a, b])))
+        dist.add("all-lines-up-to-length-2-over-%d-bytes" % len(alpha), len(alpha) ** 2 + len(alpha))
+        # quoting round trips: arbitrary argument lists
+        awkward = b' "\\\t\n\x00\xffab'
+        for _ in range(20000 if thorough else 4000):
+            v = rng.choice(VERBS)
+            sp = "".join(rng.choice([ch, ch.upper()]) for ch in v)
+            n = rng.choice([0, 1, 1, 2, 3, 5])
+            args = []
+            for _ in range(n):
+                ln = rng.choice([0, 1, 2, 3, 5, 10, 40])
+                if rng.random() < 0.5:
+                    args.append(bytes(rng.choice(awkward) for _ in range(ln)))
+                else:
+                    args.append(bytes(rng.randrange(256) for _ in range(ln)))
+            line = sp.encode() + b"".join(b" " + quote_arg(a) for a in args)
+            cases.append("parse_rt %s %s %s" % (H(line), v, " ".join(H(a) for a in args)))
+            dist.add("quoting-roundtrip-%d-args" % n)
+        # random lines over the full byte range, and structured lines with raw (unquoted / half-quoted) arguments
+        for _ in range(20000 if thorough else 4000):
+            r = rng.random()
+            if r < 0.4:
+                t = bytes(rng.randrange(256) for _ in range(rng.choice([1, 2, 3, 5, 8, 20, 100])))
+            else:
+                v = rng.choice(VERBS).encode()
+                if rng.random() < 0.3:
+                    v = v.upper()
+                parts = [v]
+                for _ in range(rng.randrange(0, 4)):
+                    parts.append(rng.choice([b" ", b"  ", b"\t", b"\x0b", b""]) +
+                                 bytes(rng.choice(b'ab "\\\'\t\x00\xff') for _ in range(rng.randrange(0, 6))))
+                t = rng.choice([b"", b" ", b"\t "]) + b"".join(parts)
+            cases.append("parse " + H(t))
+            dist.add("random-lines")
+        return cases
+
+    @staticmethod
+    def nontrivial(case, model):
+        return model != "invalid"
+
+    exhaustive_note = ("all 2^n case variants of all 27 verbs; near-miss verbs with each of the 256 byte values appended, prepended, "
+                       "wrapped (and inserted/replaced at every position in thorough); all lines up to length 2 over all 256 "
+                       "bytes (thorough)")
+
+
+LEAF = {"C19": C19, "C15": C15, "C16": C16, "C06": C06, "C05": C05}
 
 
 def evaluate(prop, cases, tag):
@@ -444,6 +548,8 @@ def decide(prop, rep, cases, impl, model, spec, P):
         if P.nontrivial(c, m):
             nontriv.add(c)
         i_cmp = i.split(" | ")[0] if (" | " in i and " | " not in s) else i
+        if c.startswith("parse ") and not i.startswith(("exn", "CRASH", "NOT-RUN")):
+            i_cmp = i.split(" ")[0]          # general lines: the reference decides the verb only
         if i_cmp != s:
             rep.violation(classify(c.split()[0], i, s),
                           "implementation disagrees with the specification of the theorem",
